@@ -82,6 +82,7 @@ pub fn case(seed: u64, st: &mut Stats) {
     let mut o = ConvOpts::full();
     o.required = rng.coin();
     o.hyphen_pos = true;
+    o.explicit_index = true;
     let mut spec = conv_cmd(&mut rng, &o);
     if rng.coin() {
         spec.set(Setting::InferLongArgs);
@@ -89,6 +90,7 @@ pub fn case(seed: u64, st: &mut Stats) {
     if rng.coin() {
         spec.set(Setting::InferSubcommands);
     }
+    spec.push_down(&[Setting::InferLongArgs, Setting::InferSubcommands]);
     let cmd = match gate(&spec) {
         Ok(c) => c,
         Err(_) => {
@@ -110,7 +112,10 @@ pub fn case(seed: u64, st: &mut Stats) {
         };
         st.nontrivial(mix(hash_str(&format!("{:?}", spec)), hash_str(&show_argv(&r0.argv))));
         for _ in 0..3 {
-            let style = Style::random(&mut rng);
+            let mut style = Style::random(&mut rng);
+            // a short flag subcommand inside the clusters around it (`-vS`, `-Syu`) is one more
+            // spelling of "separate short flags"
+            style.merge_flag_sub = if rng.coin() { 80 } else { 0 };
             let r = render(&mut rng, &spec, &intent, &style);
             if r.argv == r0.argv {
                 st.count("rewrite.identical-argv");
